@@ -24,7 +24,7 @@ META = dict(
                 "two-vote overstatements at multiples of int(1/rate), and interleaved tallies for polling; estimate = first crossing of "
                 "the code's own test. (6) raire.sample_estimator.sample_size likewise.",
     bounds={"quick": {"N": "4..6", "pilot length": "2, 3", "tests": "kaplan_markov, kaplan_wald, alpha_mart/fixed_alternative_mean", "reps": "1, 2",
-                      "rates": "0, 1/2, 1/3", "tallies": "sum <= 5"},
+                      "rates": "0, 1/2, 1/3 (incl. both 0)", "tallies": "sum <= 5"},
             "thorough": {"N": "4..7", "tests": "+ betting_mart/fixed_bet", "reps": "1, 2, 3", "tallies": "sum <= 6"}},
     outside=["populations beyond the bound", "the Mersenne-Twister stream (any elements of x)"],
     assumptions=["alpha in (0,1)", "pilot values in [0,u]"],
@@ -48,9 +48,11 @@ def cells(tier):
     for shape in ([1], [2], [1, 2], [2, 2]):
         out.append(dict(kind="contest_max", shape=shape))
     out.append(dict(kind="interleave", total=5 if tier == "quick" else 6))
-    for r1, r2 in (("1/2", "0"), ("1/3", "1/2"), ("0", "1/3"), ("1/2", "1/2")):
+    for r1, r2 in (("1/2", "0"), ("1/3", "1/2"), ("0", "1/3"), ("1/2", "1/2"), ("0", "0")):
         for N in (4, 6):
             out.append(dict(kind="scratch", audit_type="CARD_COMPARISON", rate_1=r1, rate_2=r2, N=N))
+            if r2 == "0":      # a wide margin, so that the error-free values cross small risk limits within N
+                out.append(dict(kind="scratch", audit_type="CARD_COMPARISON", rate_1=r1, rate_2=r2, N=N, margin="4/5"))
     out.append(dict(kind="scratch", audit_type="POLLING", N=5))
     out.append(dict(kind="raire", N=4, r1="1/2", r2="0"))
     out.append(dict(kind="raire", N=5, r1="1/3", r2="1/2"))
@@ -324,7 +326,7 @@ def _scratch(cell, stats):
                 want = A.Assertion.interleave_values(b, N - a - b, a, big=1)
                 p, hist = merge.merged_call(asn.test.test, want)
             else:
-                mg = F(1, 5)
+                mg = F(cell.get("margin", "1/5"))
                 r1, r2 = F(cell["rate_1"]), F(cell["rate_2"])
                 con = A.Contest(id="K", name="K", risk_limit=EV(alpha), choice_function="PLURALITY", n_winners=1, candidates=["A", "B"], winner=["A"],
                                 audit_type="CARD_COMPARISON", cards=N, test=NM.kaplan_markov, g=EV(g))
@@ -332,7 +334,8 @@ def _scratch(cell, stats):
                 asn.margin = mg
                 asn.test.u = 2 / (2 - mg)
                 est = asn.find_sample_size(data=None, rate_1=(r1 if r1 else 0), rate_2=(r2 if r2 else 0), reps=None)
-                big, small = 1 / (2 - mg), F(1, 2) / (2 - mg)
+                # (the code forms these in double precision: big * np.ones(N))
+                big, small = F(float(1 / (2 - mg))), F(float(F(1, 2) / (2 - mg)))
                 want = [big] * N
                 if r1:
                     for i in range(0, N, int(1 / r1)):
@@ -530,7 +533,7 @@ def replay(f):
                     want_pop = A.Assertion.interleave_values(b, N - a - b, a, big=1)
                     hist = asn.test.test(want_pop)[1]
             else:
-                mg = 0.2
+                mg = float(F(cell.get("margin", "1/5")))
                 r1, r2 = float(F(cell["rate_1"])), float(F(cell["rate_2"]))
                 con = A.Contest(id="K", name="K", risk_limit=alpha, choice_function="PLURALITY", n_winners=1, candidates=["A", "B"], winner=["A"],
                                 audit_type="CARD_COMPARISON", cards=N, test=NM.kaplan_markov, g=g)
